@@ -14,6 +14,10 @@ pub fn xxh3_128(data: &[u8]) -> u128 {
     xxh3_checksum(data)
 }
 
+// C14: real allocate_helper / free_helper / try_shrink bookkeeping on an in-memory backend
+mod alloc_mem;
+pub use alloc_mem::VAllocMem;
+
 pub struct VBuddy(BuddyAllocator);
 
 impl VBuddy {
